@@ -35,7 +35,7 @@ def frame_of(s, now, states, relaxed):
 class C18(Prop):
     id = 'C18'
     num = 18
-    regions = {'quick': [('deadlock', 500)]}
+    regions = {'quick': [('deadlock', 500), ('deadlock_dynpre', 120)]}
     thorough_mult = 20
     soft_clauses = (90, 91)
     rule = ('one case = one observed simulate_until_deadlock run of a restricted network with finite integer servers '
@@ -244,11 +244,25 @@ class C18(Prop):
             res['sample'] = {'digraph': G, 'vertices': V, 'detect_deadlock': nx}
         return res
 
+    @staticmethod
+    def cut_of(tr):
+        """index of the first frame in which a BLOCKED customer is pre-empted / interrupted (findings F-02a / F-02b: outside the property's scope,
+        the run is judged up to there only), or None"""
+        for k, f in enumerate(tr.frames):
+            for e in f['cev']:
+                if (e[0] == 'Preempt' and e[5] == 1) or (e[0] == 'Interrupt' and e[3] == 1):
+                    return k
+        return None
+
     def project(self, tr, relaxed=False):
         states = {}
         f0 = frame_of(tr.init, 0, states, relaxed)      # Simulation.__init__ enters the initial state at time 0.0
-        fr = [frame_of(f['snap'], f['now'], states, relaxed) for f in tr.frames]
-        stopped = (not tr.stopped) and tr.exc is None
+        cut = self.cut_of(tr)
+        frames = tr.frames if cut is None else tr.frames[:cut]
+        fr = [frame_of(f['snap'], f['now'], states, relaxed) for f in frames]
+        stopped = (not tr.stopped) and tr.exc is None and cut is None
+        if cut is not None:
+            return [1 if relaxed else 0, f0, fr, [0, frames[-1]['now'] if frames else 0, []]]
         ttd = []
         if stopped and getattr(tr, 'ttd', None) is not None:
             for k, v in tr.ttd:
@@ -257,7 +271,7 @@ class C18(Prop):
         return [1 if relaxed else 0, f0, fr, [1 if stopped else 0, tdead, ttd]]
 
     def nontrivial(self, tr):
-        if tr.stopped or tr.exc is not None or not tr.frames:
+        if tr.stopped or tr.exc is not None or not tr.frames or self.cut_of(tr) is not None:
             return False
         s = tr.frames[-1]['snap']
         nodes = set()
